@@ -63,13 +63,53 @@ CLAIMS["C11"] = {
             "old-path frame exactly on lambda_0; shared tis_set; z3 trusted",
     "technique": TECH,
 }
+TECH_HRX = ("bounded symbolic model checking of the real scheduler methods: inductive step from every invariant-satisfying "
+            "pre-state + BMC from the real initial state; nondeterminism explored exhaustively, fractions/coin symbolic, z3-decided")
+HRXNOTE = 'rng / file layer / PathStorage.output are recording stubs (random picks nondeterministic, any index with p>0); staircase family without holes; weights from the real calc_cv_vector on generated paths; workers <= ensembles-1; TOML library trusted (restart goes through the real tomli_w + tomllib); the asyncio process pool is outside'
+CLAIMS["C03"] = {
+    "level": "model_checking",
+    "text": "One inductive step of the real scheduler (an arbitrary in-flight job finishes with an arbitrary outcome -> treat_output; "
+            "then prep_md_items -> pick with every random outcome) from every pre-state satisfying invariant I (all arrangements of "
+            "staircase paths over the slots, all realisable sets of in-flight jobs incl. zero swaps, 1..k-1 workers), k <= 4 (5 thorough), "
+            "plus every event sequence from the real initial states to depth 2-3 (k<=3; deeper thorough). After each call: in-flight "
+            "ensembles and paths pairwise disjoint, exactly those marked busy, each job's path has non-zero own weight, no shared engine "
+            "instance / worker directory / pin, a zero swap starts only with both idle and holds both, no lock/unlock assertion fires. "
+            "Since I is re-established, it holds after histories of any length within the size bound.",
+    "design_ref": "DESIGN.md section 3 C03-C05 (HRX)", "note": HRXNOTE, "technique": TECH_HRX,
+}
+CLAIMS["C04"] = {
+    "level": "model_checking",
+    "text": "Same inductive step / BMC with symbolic accumulated fractions: the increment summed over live paths is exactly 1 in every "
+            "idle column and 0 in busy ones, non-zero only where the path's weight is, busy paths get nothing; the captured data file gets "
+            "exactly the rows of the replaced paths, once, carrying their pre-step fractions; traj_data holds exactly the live paths; the "
+            "fractions survive write_toml -> real TOML round trip -> load_paths as the same values.",
+    "design_ref": "DESIGN.md section 3 C03-C05 (HRX)", "note": HRXNOTE + "; decimal printing of longdouble replaced by exact tokens",
+    "technique": TECH_HRX,
+}
+CLAIMS["C05"] = {
+    "level": "model_checking",
+    "text": "Same inductive step / BMC: the vector handed to rgen.choice is finite, non-negative and sums to one (no division by zero); "
+            "sort_trajstate terminates (swap counter + cycle detection) and leaves every idle path where its weight is non-zero; the idle "
+            "block keeps a perfect matching; live paths distinct, path numbers never reused; the restart file written at that moment "
+            "(real tomli_w/tomllib) loads into a fresh REPEX_state without tripping add_traj's assertion. k <= 4 (5 thorough).",
+    "design_ref": "DESIGN.md section 3 C03-C05 (HRX)", "note": HRXNOTE, "technique": TECH_HRX,
+}
+CLAIMS["C14"] = {
+    "level": "model_checking",
+    "text": "Deletion clause only (the store/load text round trip is outside, see not-applicable part in DESIGN): in the same inductive "
+            "step / BMC with delete_old(+_all) on and symbolic delete queues, every address handed to os.remove/rmdir belongs to a path "
+            "that is not live, not in the restart file written in that step, is not an initial path, and headed a queue of >= n-1 "
+            "replaced paths at the moment of removal; nothing is removed with delete_old off.",
+    "design_ref": "DESIGN.md section 3 C14 / HRX", "note": HRXNOTE + "; an accepted path's files are its own (moved under load/<n>/accepted by the stubbed PathStorage.output)",
+    "technique": TECH_HRX,
+}
 PENDING = "check not built yet in this revision (see DESIGN.md for the plan); no claim is made"
 NOT_APPLICABLE = {
     "C01": "statistical convergence of a whole stochastic sampler: no bounded symbolic encoding; its algebraic obligations are decided under C02/C04/C09/C10/C11",
     "C08": "quantifies over crash positions in a trace of OS file-system effects and the outcome of TOML/path parsers on truncated trees: not symbolically executable with the installed tools (fault enumeration is a different technique family)",
     "C19": "every clause is a round trip through C-level text/binary codecs (str.format/float, struct, re, genfromtxt): not executable on symbolic data here",
 }
-for _p in ["C03", "C04", "C05", "C06", "C07", "C12", "C13", "C14", "C16", "C17", "C18", "C20"]:
+for _p in ["C06", "C07", "C12", "C13", "C16", "C17", "C18", "C20"]:
     if _p not in CLAIMS:
         NOT_APPLICABLE[_p] = PENDING
 NOTES = ("All checks: exit 0 held within the stated bounds; exit 1 + VIOLATION line only for a counterexample that was replayed "
